@@ -68,7 +68,7 @@ func init() {
 					continue
 				}
 				for vi, v := range t.vals {
-					for _, pre := range []string{"", "MIX-", "abcDEF0", "x"} {
+					for _, pre := range []string{"", "MIX-", "abcDEF0", "x", "urn:uuid:", "see urn:uuid:", "v", "-"} {
 						d.Do(Ev{"op": "fmt.append", "pkg": t.pkg, "prefix": B(pre), "spare": spares[(fl+vi)%len(spares)], "val": v, "flags": fl})
 					}
 				}
@@ -308,9 +308,16 @@ func init() {
 							parse(p, in, r)
 						}
 						// valid text padded / cut to the length
-						s := p.seeds[0]
-						if len(s) >= n {
-							parse(p, []byte(s[:n]), 0)
+						for _, s := range p.seeds {
+							if len(s) >= n {
+								parse(p, []byte(s[:n]), 0)
+							}
+						}
+						if n >= 2 { // a well-formed JSON string of exactly n bytes
+							q := append(append([]byte{'"'}, in[:n-2]...), '"')
+							for r := 0; r < p.rules; r++ {
+								parse(p, q, r)
+							}
 						}
 						// the same length reached with a form prefix that some parsers strip before matching
 						for _, pre := range []string{"v", "urn:uuid:", " ", "\""} {
